@@ -112,6 +112,10 @@ def c11_one(rng, repo, rounds):
                 target = rng.choice(['f1', 'f2', 'sub/f3', 'new%d' % r])
                 if op == 'touch-older' and target in touched:
                     continue      # a file modified in this round must stay newer than the TIMESTAMP (quantifier of C11)
+                if op == 'resize-older' and not os.path.exists(os.path.join(a, target)):
+                    # "resized with an old mtime" needs a file whose recorded size it changes; re-creating a deleted file
+                    # can hit the recorded size by accident (same size, old mtime = outside the quantifier of C11)
+                    continue
                 if op != 'touch-older':
                     touched.add(target)
                 ops.append((op, target))
@@ -132,6 +136,11 @@ def c11_one(rng, repo, rounds):
                             new = bytes([(old[0] + 1 + r) % 256]) + old[1:]
                         else:
                             new = old + b'+%d' % r
+                        if op == 'resize-older':
+                            # the point of this operation is a size that differs from the recorded one
+                            rec = [int(t[2]) for t in ents if t[0] != 'TIMESTAMP' and len(t) > 2 and C.unescape(t[1]) == target]
+                            while rec and len(new) == rec[0]:
+                                new += b'!'
                         with open(p, 'wb') as fh:
                             fh.write(new)
                         # every modified file ends up newer than the previous TIMESTAMP (30 min is inside any TZ offset);
